@@ -15,12 +15,37 @@ from vf.params import *
 from props.C06 import exponent_script, limbs_eq, const_limbs, asserts
 
 HARNESS = ['field_intrinsics.go', 'field_wrappers.go']
+
+
+def cex(ck, r, low, pre, goal, op, an, bn=None):
+    """solver model of a failed wrapper obligation -> replay case on explicit Montgomery limbs (canonical operands)"""
+    from vf.dag import ensure_vars
+    names, _ = ensure_vars(r, low, [an + str(i) for i in range(4)] + ([bn + str(i) for i in range(4)] if bn else []))
+    A = concat_limbs(names[:4])
+    extra = '\n(assert (bvult %s %s))' % (A, bvconst256(P))
+    if bn:
+        extra += '\n(assert (bvult %s %s))' % (concat_limbs(names[4:]), bvconst256(P))
+    m, _ = smt.get_model(low.all() + '\n' + pre + extra + '\n' + goal, names, timeout=30)
+    if m:
+        case = {'kind': 'field-limbs', 'op': op, 'a': '%064x' % unlimbs([m[x] for x in names[:4]]), 'b': '%064x' % (unlimbs([m[x] for x in names[4:]]) if bn else 0)}
+        ck.extra.setdefault('_cex', []).append(case)
+
 KS = kernel_summaries('field', 'f')
 C2 = None
 
 
-def run(tier, seed):
-    ck = Check('C12', tier, seed, level='proof')
+_embedded = {}
+
+
+def run(tier, seed, ck=None):
+    """with ck given, the obligations of the field layer are added to another property's check (once per process):
+    every check that abstracts field.Element methods re-proves their contracts on the current tree"""
+    own = ck is None
+    if not own:
+        if _embedded.get(id(ck)):
+            return
+        _embedded[id(ck)] = True
+    ck = ck or Check('C12', tier, seed, level='proof')
     jobs = []
     for op in range(3):
         for al in range(5):
@@ -43,14 +68,14 @@ def run(tier, seed):
         jobs.append({'id': 'inv%d' % al, 'harness': 'vh_fe_invert', 'args': [al], 'summaries': KS})
     jobs.append({'id': 'exp0', 'harness': 'vh_fe_exp', 'args': [0], 'summaries': KS})
     runs = ck.absorb(core.symx_parallel(HARNESS, jobs, pkg='field'))
-    ck.extra['_runs'] = runs
+    ck.extra.setdefault('_runs', []).extend(runs)
     R_ = {r.id: r for r in runs}
-    ck.trusted = ['go/ssa + symx translation', 'SMT solvers', 'Fermat: x^(p-2) is the inverse of x != 0 modulo the prime p (0 -> 0)',
+    ck.trusted += ['go/ssa + symx translation', 'SMT solvers', 'Fermat: x^(p-2) is the inverse of x != 0 modulo the prime p (0 -> 0)',
                   'x -> x*R mod p is a ring isomorphism (Montgomery form)', 'RFC 9380 F.2.1.2 (sqrt_ratio for q = 3 mod 4) is correct as published']
-    ck.assumptions = ['operands canonical (< p), the representation invariant (C10); CMove condition in {0,1} as the property states']
-    ck.bounds = {'operands': 'all canonical limb vectors / all 32- and 48-byte strings', 'aliasing': 'receiver = either/both operands, operands equal',
-                 'FromBytesNoReduce lengths': nrl}
-    ck.outside = ['non-canonical limb vectors; CMove conditions other than 0/1; expPMin3Div4 with receiver aliasing its argument (unexported helper, never called that way)']
+    ck.assumptions += ['operands canonical (< p), the representation invariant (C10); CMove condition in {0,1} as the property states']
+    ck.bounds.update({'operands': 'all canonical limb vectors / all 32- and 48-byte strings', 'aliasing': 'receiver = either/both operands, operands equal',
+                 'FromBytesNoReduce lengths': nrl})
+    ck.outside += ['non-canonical limb vectors; CMove conditions other than 0/1; expPMin3Div4 with receiver aliasing its argument (unexported helper, never called that way)']
     kernels.prove(ck, 'field', ['Mul', 'Square', 'Add', 'Sub', 'Opp', 'FromMontgomery', 'ToMontgomery', 'Selectznz', 'Nonzero', 'SetOne'], tier)
 
     def one_path(r, tag):
@@ -75,7 +100,9 @@ def run(tier, seed):
             ck.ground(tag + '.ret', 'returns the receiver', r.nodes[o['same']['n']].get('v') == '1')
             if al == 0:
                 ck.ground(tag + '.frame', 'operands unchanged', o['U']['f'] == o['U0']['f'] and o['V']['f'] == o['V0']['f'])
-            ck.prove_batch(low.all(), goals, timeout=30)
+            ans = ck.prove_batch(low.all(), goals, timeout=30)
+            if ans[0] == 'sat' and al == 0:
+                cex(ck, r, low, '', goals[0][2], nm, 'u', 'v')
     for op, (nm, uf) in enumerate((('Negate', 'fneg'), ('Square', 'fsq'), ('Set', None))):
         for al in range(2):
             r = R_['op1_%d_%d' % (op, al)]
@@ -90,7 +117,10 @@ def run(tier, seed):
             low = BVLower(r)
             low.emit(o['E']['f'] + o['U0']['f'])
             f, _ = low.declare_uf(uf, [BV256], BV256)
-            ck.prove_batch(low.all(), [(tag + '.kernel', '%s: receiver := %s(u)' % (nm, uf), '(assert (not %s))' % limbs_eq(o['E']['f'], '(%s %s)' % (f, concat_limbs(['n%d' % x for x in o['U0']['f']]))))], timeout=30)
+            g1 = (tag + '.kernel', '%s: receiver := %s(u)' % (nm, uf), '(assert (not %s))' % limbs_eq(o['E']['f'], '(%s %s)' % (f, concat_limbs(['n%d' % x for x in o['U0']['f']]))))
+            ans = ck.prove_batch(low.all(), [g1], timeout=30)
+            if ans[0] == 'sat' and al == 0:
+                cex(ck, r, low, '', g1[2], nm, 'u')
 
     # ---- Sgn0, IsZero, Equals, Bytes, One, IsEqual ----
     r = R_['misc']
@@ -114,7 +144,13 @@ def run(tier, seed):
         for j in range(min(32, len(o['bytes']['elems']))):
             goals.append(('C12.Bytes.%d' % j, 'Bytes()[%d] = byte %d of the 32-byte big-endian canonical value' % (j, j),
                           '(assert (not (= n%d ((_ extract %d %d) ve))))' % (o['bytes']['elems'][j], 255 - 8 * j, 248 - 8 * j)))
-        ck.prove_batch_par(pre, goals, timeout=60, chunks=3)
+        ans = ck.prove_batch_par(pre, goals, timeout=60, chunks=3)
+        for g, a in zip(goals, ans):
+            if a == 'sat' and g[0] != 'C12.IsEqual':
+                lowm = BVLower(r)
+                lowm.emit(roots)
+                MontUF(lowm, 'f')
+                cex(ck, r, lowm, pre[len(low.all()):], g[2], g[0].split('.')[1], 'e', 'u')
         ck.prove('C12.misc.reach', 'assumptions satisfiable', pre, expect='sat', timeout=30)
         ck.ground('C12.Bytes.shape', 'Bytes returns 32 fresh bytes and leaves the element unchanged', o['bytes']['len'] == 32 and o['bytes']['fresh'] and o['E']['f'] == o['E0']['f'])
         ck.ground('C12.One', 'One() = R mod p; New() = 0', const_limbs(r, o['one']['f']) == R % P and const_limbs(r, o['new']['f']) == 0)
@@ -259,13 +295,13 @@ def run(tier, seed):
         ck.prove_batch(low.all(), goals, timeout=60)
         if al == 0:
             ck.ground(tag + '.frame', 'operands unchanged', o['U']['f'] == o['U0']['f'] and o['V']['f'] == o['V0']['f'])
-    if any(not o['ok'] for o in ck.obls) and not ck.violations:
+    if any(not o['ok'] and o['id'].startswith(('C12.', 'K.field')) for o in ck.obls) and not ck.violations:
         battery(ck)
-    return ck.finish()
+    return ck.finish() if own else None
 
 
 def battery(ck):
-    path = ck.save_replay({'property': 'C12', 'cases': [{'kind': 'field-battery', 'op': str(ck.seed)}]})
+    path = ck.save_replay({'property': ck.pid, 'pkg': 'field', 'cases': ck.extra.get('_cex', []) + [{'kind': 'field-battery', 'op': str(ck.seed)}]})
     ok, out = core.go_test(path, pkg='field')
     if not ok and 'MISMATCH' in out:
         ck.violation('field-api', 'field layer wrong on boundary/seeded operands: %s' % [l.strip() for l in out.splitlines() if 'MISMATCH' in l][:1], path)
